@@ -68,7 +68,83 @@ def chain_of(body, local, limit=24):
     return neg, calls, places
 
 
-def guards(body, bb):
+def variant_defs(body, local):
+    """if `local` is assigned only Result / Option variant aggregates (in distinct blocks), return {variant name: block}"""
+    out = {}
+    for b, kind, x in body.defs().get(local, []):
+        if kind != 'assign' or x['lhs']['p'] or x['rv']['rk'] != 'aggregate':
+            return None
+        agg = x['rv']['agg']
+        for v in ('Result::Ok', 'Result::Err', 'Option::Some', 'Option::None'):
+            if agg.endswith(v):
+                out[v.split('::')[1]] = b
+                break
+        else:
+            return None
+    return out if len(out) >= 2 else None
+
+
+def correlated_origin(body, g):
+    """for a switch block g whose discriminant is (the Try::branch / discriminant of) a local assigned constant Result/Option variants in
+    several blocks: {switch value: defining block}; None otherwise"""
+    t = body.blocks[g]['term']
+    cur = op_local(t['discr'])
+    via_branch = None
+    for _ in range(10):
+        if cur is None:
+            return None
+        vd = variant_defs(body, cur)
+        if vd:
+            m = {}
+            if via_branch == 'result' or via_branch is None and ('Ok' in vd or 'Err' in vd):
+                m = {0: vd.get('Ok'), 1: vd.get('Err')}
+            elif via_branch == 'option':
+                m = {0: vd.get('Some'), 1: vd.get('None')}
+            else:
+                m = {0: vd.get('None'), 1: vd.get('Some')}
+            return {k: v for k, v in m.items() if v is not None}
+        ds = [d for d in body.defs().get(cur, []) if d[1] == 'call' or not d[2]['lhs']['p']]
+        if len(ds) != 1:
+            return None
+        b, kind, x = ds[0]
+        if kind == 'call':
+            c = cname(x)
+            if c.endswith('::branch'):
+                via_branch = 'result' if 'Result' in c else 'option'
+                cur = op_local(x['args'][0])
+                continue
+            return None
+        rv = x['rv']
+        ps = body.rvalue_places(rv)
+        if rv['rk'] in ('use', 'discriminant', 'ref') and ps:
+            cur = ps[0]['l']
+        else:
+            return None
+    return None
+
+
+def guards(body, bb, _depth=0):
+    out = _guards(body, bb)
+    if _depth < 2:
+        # correlated branches: a `?` / match on a Result or Option value that was built as a constant variant in different blocks
+        for g in sorted(body.dominators()[bb]):
+            if g == bb or body.blocks[g]['term']['k'] != 'switch':
+                continue
+            origin = correlated_origin(body, g)
+            if not origin:
+                continue
+            t = body.blocks[g]['term']
+            edges = [(v, tgt) for v, tgt in t['targets']] + [(None, t['otherwise'])]
+            live = [(v, tgt) for v, tgt in edges if body.blocks[tgt]['term']['k'] != 'unreachable']
+            reaching = [v for v, tgt in live if bb in body.reachable_from([tgt], avoid={g})]
+            if len(reaching) == 1 and reaching[0] in origin:
+                for x in guards(body, origin[reaching[0]], _depth + 1):
+                    if not any(x['block'] == y['block'] for y in out):
+                        out.append(x)
+    return out
+
+
+def _guards(body, bb):
     """switches that dominate bb and decide whether it runs: list of dict(block, neg, calls, places, values) where values
     is the list of switch values (None = otherwise) whose edge can reach bb without re-passing the switch"""
     out = []
